@@ -41,7 +41,18 @@ def gen_case(seed):
     if has_label and ch.chance(64):
         label = bytes(8192)
     crlf = ch.chance(40)
-    code, cstats = cartgen.filler_code(ch, crlf=crlf)
+    if ch.chance(70):
+        # a LUAGEN program of the dialect (string escapes, long strings, comments, glyph identifiers, short-ifs)
+        from vlib import luagen
+        model, _tags = luagen.gen_program(ch, luagen.Cfg(max_depth=2, max_stmts=1 + ch.below(5), budget=40 + ch.below(60)))
+        toks, _stmts = luagen.render(model, ch)
+        lay = luagen.layout(toks, ch, ch.pick(['free', 'lines', 'minimal']), crlf=crlf)
+        code = lay.src if luagen.verify(lay) is not None else b'x=1\n'
+        cstats = {'lines': code.count(b'\n'), 'has_special_bytes': any(b >= 0x80 or b < 0x20 and b not in (10, 13, 9)
+                                                                       for b in code),
+                  'final_newline': code.endswith(b'\n'), 'luagen': True}
+    else:
+        code, cstats = cartgen.filler_code(ch, crlf=crlf)
     return {'mem': mem, 'modes': modes, 'version': version, 'label': label, 'code': code,
             'cstats': cstats, 'crlf': crlf}
 
@@ -177,6 +188,8 @@ def one(ctx, seed, via):
         labs.append('crlf')
     if c['version'] > 255:
         labs.append('version>255')
+    if c['cstats'].get('luagen'):
+        labs.append('luagen_program')
     ctx.stats.case(seed + via.encode(), nontrivial,
                    {'version': c['version'], 'modes': c['modes'], 'label': c['label'] is not None,
                     'code': show(c['code'], 120)}, labs)
